@@ -43,6 +43,36 @@ def c17Holds (o : AllowObs) : Bool :=
   sameSet (o.optAllow.filter (probed.contains ·)) routableSet && o.optAllow.all (probed.contains ·) &&
   sameSet o.optACAM o.optAllow && !o.optHandlerRan && o.othersUntouched
 
+/-! ### OPTIONS probes that carry Access-Control-Request-Method (browser preflights)
+
+"The set listed by the OPTIONS filter (Allow and Access-Control-Allow-Methods) equals the set of
+methods … not answered 404 or 405" is a statement about EVERY OPTIONS request the filter answers, with
+whatever headers: a preflight names the method of the call to come in Access-Control-Request-Method,
+and the filter's two lists must still be the routable methods of the URL (not the requested one, not
+nothing).  The harness sends such probes to the container with the filter (allow.go `observe`: one
+per value — a routable method, a method that is not, lower case, junk, empty) and records each answer. -/
+
+/-- one OPTIONS probe with an Access-Control-Request-Method header through the OPTIONS filter: the
+    header's value, the Allow and Access-Control-Allow-Methods lists of the answer, whether a route
+    function ran -/
+structure PreflightObs where
+  acrm : Str
+  allow : List Str
+  acam : List Str
+  handlerRan : Bool
+  deriving Repr, DecidableEq
+
+/-- the clause of `c17Holds` about the filter's answer, for one preflight probe: both lists are the
+    routable methods of the URL (the probes of `o`), no route function ran -/
+def pfHolds (o : AllowObs) (p : PreflightObs) : Bool :=
+  let routableSet := (o.probes.filter (fun p => p.2.1 != 404 && p.2.1 != 405)).map (·.1)
+  let probed := o.probes.map (·.1)
+  sameSet (p.allow.filter (probed.contains ·)) routableSet && p.allow.all (probed.contains ·) &&
+  sameSet p.acam p.allow && !p.handlerRan
+
+/-- C17 on an observation together with its preflight probes (what the driver evaluates) -/
+def c17HoldsAll (o : AllowObs) (pfs : List PreflightObs) : Bool := c17Holds o && pfs.all (pfHolds o)
+
 /-! ### the observation the MODEL produces
 
 What the harness (harness/internal/allow/allow.go `observe`) would record if the implementation WERE
@@ -108,6 +138,21 @@ def modelObsWire (E : ReEnv) (cfg : Config) (req : Req) (methods : List Str) : A
   { modelObs E cfg req methods with
     optAllow := headerList "Allow".toList added
     optACAM := headerList Cors.hAllowMethods added }
+
+/-- what the OPTIONS filter reads of a preflight probe: `optReqOf` plus the requested method -/
+def optReqPf (req : Req) (acrm : Str) : Options.OptReq := { method := Cors.sOPTIONS, path := req.path, acrm := acrm }
+
+/-- the model's answer to one preflight probe (allow.go `observe`, the `Preflights` loop), built like
+    `modelObs`: the list `Options.optionsOut` joins into Allow and Access-Control-Allow-Methods for a
+    request that carries Access-Control-Request-Method = `acrm` (`Allow.filtered_preflight`: the same
+    list whatever `acrm` is — options_filter.go never reads the header); a route function runs only if
+    the filter passes the request on and dispatch then selects a route -/
+def modelPreflight (E : ReEnv) (cfg : Config) (req : Req) (acrm : Str) : PreflightObs :=
+  let lists := (Cors.computeAllowedMethods E cfg.services req.path).getD []
+  { acrm := acrm, allow := lists, acam := lists
+    handlerRan := match Options.optionsOut E cfg (optReqPf req acrm) with
+      | some out => out.passOn && statusOf (route E cfg { req with method := Cors.sOPTIONS }) == 200
+      | none => false }
 
 /-- a method name that survives the comma-separated header: a non-empty run of visible ASCII
     characters other than the comma (every HTTP token is one) -/
